@@ -120,41 +120,32 @@ example : InI31 1073741823 ∧ InI31 (-1073741824) ∧ ¬ InI31 1073741824 := by
 
 /-! ## 3. String constants -/
 
-/- Full-strength statement (FALSE):
+/- Full-strength statement (still FALSE on the code after fixes 0e855e5 and 8056d1e: C04-F2):
    theorem strconst_agree (raw : Text) (h : lexAccepts raw = true) :
-       tsCook (content raw) = some (wasmDecode (content raw))                                     -/
+       tsDecode (content raw) = some (wasmDecode (content raw))                                   -/
 
 /-- `"a\nb"`: the TypeScript template literal cooks the escape into a line feed, the WebAssembly
-data segment keeps backslash + `n` (finding C04-F2). -/
+data segment keeps backslash + `n` (finding C04-F2, open). -/
 theorem strconst_agree_counterexample :
-    ¬ ∀ raw : Text, lexAccepts raw = true → tsCook (content raw) = some (wasmDecode (content raw)) := by
+    ¬ ∀ raw : Text, lexAccepts raw = true → tsDecode (content raw) = some (wasmDecode (content raw)) := by
   intro h
-  have := h [97, 92, 110, 98] (by decide)
-  simp [tsCook, content, unescapeQuotes, wasmDecode, utf8, utf16, byteToUnit] at this
+  have h1 := h [97, 92, 110, 98] (by decide)
+  have h2 : wasmDecode (content [97, 92, 110, 98]) = [97, 92, 110, 98] := by
+    simp [wasmDecode, content, unescapeQuotes, utf8, byteToU8, utf8Decode, utf16]
+  rw [h2] at h1
+  simp [tsDecode, tsEscape, tsCook, content, unescapeQuotes, utf16] at h1
 
-/-- `"é"`: UTF-8 bytes read back one code unit per (sign-extended) byte (finding C04-F4). -/
-theorem strconst_nonascii_witness :
-    lexAccepts [233] = true ∧ tsCook (content [233]) = some [233] ∧
-      wasmDecode (content [233]) = [65475, 65449] := by
-  refine ⟨by decide, ?_, by decide⟩
-  simp [tsCook, content, unescapeQuotes, utf16]
+/- Historical note: before fix 8056d1e `"é"` was a second witness (bytes read back one UTF-16 unit
+per sign-extended byte, C04-F4) and before fix 0e855e5 a back quote / `${` a third one (C04-F3);
+both are now inside `strconst_agree_partial`. -/
 
-/-- a back quote, or `${`, inside a literal: the emitted TypeScript is not the intended template
-literal (finding C04-F3). -/
-theorem strconst_backtick_witness :
-    lexAccepts [97, 96, 98] = true ∧ tsCook (content [97, 96, 98]) = none ∧
-    lexAccepts [36, 123, 49, 125] = true ∧ tsCook (content [36, 123, 49, 125]) = none := by
-  refine ⟨by decide, ?_, by decide, ?_⟩ <;> simp [tsCook, content, unescapeQuotes]
+/-- Unicode scalar value -/
+def Scalar (v : Nat) : Prop := v < 1114112 ∧ ¬ (55296 ≤ v ∧ v < 57344)
 
-/-- no `${` -/
-def noSubst : Text → Bool
-  | 36 :: 123 :: _ => false
-  | _ :: rest => noSubst rest
-  | [] => true
+instance (v : Nat) : Decidable (Scalar v) := by unfold Scalar; infer_instance
 
-/-- ASCII without backslash, back quote, carriage return; `$` allowed unless followed by `{` -/
-def PlainText (s : Text) : Prop :=
-  (∀ c ∈ s, c < 128 ∧ c ≠ 92 ∧ c ≠ 96 ∧ c ≠ 13) ∧ noSubst s = true
+/-- any text without backslash and carriage return (back quotes, `$`, `{`, non-ASCII allowed) -/
+def CleanText (s : Text) : Prop := ∀ c ∈ s, Scalar c ∧ c ≠ 92 ∧ c ≠ 13
 
 theorem tsCook_plain_cons (c : Nat) (rest : Text) (h1 : c ≠ 92) (h2 : c ≠ 96) (h3 : c ≠ 13)
     (h4 : c = 36 → rest.head? ≠ some 123) :
@@ -162,76 +153,145 @@ theorem tsCook_plain_cons (c : Nat) (rest : Text) (h1 : c ≠ 92) (h2 : c ≠ 96
   rw [tsCook.eq_def]
   split <;> simp_all
 
-/-- **String constants with plain content** are the same string on both back ends. -/
-theorem strconst_agree_content (s : Text) (h : PlainText s) : tsCook s = some (wasmDecode s) := by
+theorem tsCook_escaped (c : Nat) (rest : Text) (hc : c = 96 ∨ c = 36) :
+    tsCook (92 :: c :: rest) = (tsCook rest).map (utf16 c ++ ·) := by
+  rw [tsCook.eq_def]
+  rcases hc with rfl | rfl <;> simp [isDigit]
+
+theorem tsEscape_head (r : Text) (h : (tsEscape r).head? = some 123) : r.head? = some 123 := by
+  induction r using tsEscape.induct with
+  | case1 => simp [tsEscape] at h
+  | case2 r _ => simp [tsEscape] at h
+  | case3 r _ => simp [tsEscape] at h
+  | case4 c r h1 h2 _ =>
+    rw [tsEscape] at h
+    · simpa using h
+    · exact h1
+    · exact h2
+
+/-- the escaped template literal denotes exactly the content's UTF-16 code units -/
+theorem tsDecode_clean (s : Text) (h : ∀ c ∈ s, c ≠ 92 ∧ c ≠ 13) :
+    tsDecode s = some (s.flatMap utf16) := by
+  unfold tsDecode
+  induction s using tsEscape.induct with
+  | case1 => simp [tsEscape, tsCook]
+  | case2 r ih =>
+    rw [tsEscape, tsCook_escaped 96 _ (Or.inl rfl), ih (fun c hc => h c (List.mem_cons_of_mem _ hc))]
+    simp
+  | case3 r ih =>
+    rw [tsEscape, tsCook_escaped 36 _ (Or.inr rfl),
+      tsCook_plain_cons 123 _ (by decide) (by decide) (by decide) (fun e => absurd e (by decide)),
+      ih (fun c hc => h c (List.mem_cons_of_mem _ (List.mem_cons_of_mem _ hc)))]
+    simp
+  | case4 c r h1 h2 ih =>
+    have hc := h c List.mem_cons_self
+    rw [tsEscape]
+    · rw [tsCook_plain_cons c _ hc.1 (fun e => h1 e) hc.2, ih (fun d hd => h d (List.mem_cons_of_mem _ hd))]
+      · simp
+      · intro e hh
+        have := tsEscape_head r hh
+        cases r with
+        | nil => simp at this
+        | cons d r' => simp at this; subst this; exact h2 r' e rfl
+    · exact h1
+    · exact h2
+
+theorem byteToU8_id (b : Nat) (h : b < 256) : byteToU8 b = b := by
+  unfold byteToU8; split <;> omega
+
+/-- decoding the UTF-8 encoding of a scalar value gives the value back -/
+theorem utf8Decode_utf8 (v : Nat) (hv : Scalar v) (rest : List Nat) :
+    utf8Decode ((utf8 v).map byteToU8 ++ rest) = v :: utf8Decode rest := by
+  unfold Scalar at hv
+  unfold utf8
+  by_cases h1 : v < 128
+  · simp only [h1, if_true, List.map_cons, List.map_nil, byteToU8_id v (by omega), List.singleton_append]
+    rw [utf8Decode]; simp [h1]
+  · by_cases h2 : v < 2048
+    · simp only [h1, h2, if_true, if_false, List.map_cons, List.map_nil, List.cons_append, List.nil_append,
+        byteToU8_id (192 + v / 64) (by omega), byteToU8_id (128 + v % 64) (by omega)]
+      rw [utf8Decode]
+      simp only [List.getD_cons_zero, List.drop_succ_cons, List.drop_zero, isCont]
+      rw [if_neg (by omega), if_pos (by simp; omega)]
+      rw [List.cons.injEq]; exact ⟨by omega, rfl⟩
+    · by_cases h3 : v < 65536
+      · simp only [h1, h2, h3, if_true, if_false, List.map_cons, List.map_nil, List.cons_append, List.nil_append,
+          byteToU8_id (224 + v / 4096) (by omega), byteToU8_id (128 + v / 64 % 64) (by omega),
+          byteToU8_id (128 + v % 64) (by omega)]
+        rw [utf8Decode]
+        simp only [List.getD_cons_zero, List.getD_cons_succ, List.drop_succ_cons, List.drop_zero, isCont]
+        rw [if_neg (by omega), if_neg (by simp; omega), if_pos (by simp; omega)]
+        rw [List.cons.injEq]; exact ⟨by omega, rfl⟩
+      · simp only [h1, h2, h3, if_false, List.map_cons, List.map_nil, List.cons_append, List.nil_append,
+          byteToU8_id (240 + v / 262144) (by omega), byteToU8_id (128 + v / 4096 % 64) (by omega),
+          byteToU8_id (128 + v / 64 % 64) (by omega), byteToU8_id (128 + v % 64) (by omega)]
+        rw [utf8Decode]
+        simp only [List.getD_cons_zero, List.getD_cons_succ, List.drop_succ_cons, List.drop_zero, isCont]
+        rw [if_neg (by omega), if_neg (by simp; omega), if_neg (by simp; omega), if_pos (by simp; omega)]
+        rw [List.cons.injEq]; exact ⟨by omega, rfl⟩
+
+theorem utf8_roundtrip (s : Text) (h : ∀ c ∈ s, Scalar c) :
+    utf8Decode ((s.flatMap utf8).map byteToU8) = s := by
   induction s with
-  | nil => simp [tsCook, wasmDecode]
-  | cons c rest ih =>
-    obtain ⟨hc, hn⟩ := h
-    have hcc := hc c (List.mem_cons_self)
-    have hrest : PlainText rest := by
-      refine ⟨fun d hd => hc d (List.mem_cons_of_mem _ hd), ?_⟩
-      unfold noSubst at hn
-      split at hn <;> simp_all
-    have h4 : c = 36 → rest.head? ≠ some 123 := by
-      rintro rfl hh
-      cases rest with
-      | nil => simp at hh
-      | cons d r => simp at hh; subst hh; simp [noSubst] at hn
-    rw [tsCook_plain_cons c rest hcc.2.1 hcc.2.2.1 hcc.2.2.2 h4, ih hrest]
-    have hu8 : utf8 c = [c] := by simp [utf8, hcc.1]
-    have hu16 : utf16 c = [c] := by unfold utf16; rw [if_pos (by omega)]
-    have hb : byteToUnit c = c := by simp [byteToUnit, hcc.1]
-    simp [wasmDecode, hu8, hu16, hb]
+  | nil => simp [utf8Decode]
+  | cons c r ih =>
+    simp only [List.flatMap_cons, List.map_append]
+    rw [utf8Decode_utf8 c (h c List.mem_cons_self), ih (fun d hd => h d (List.mem_cons_of_mem _ hd))]
 
-/-- **Partial form of `strconst_agree`** on the literal as written: a literal made of plain text
-without `"` and line feed is accepted by the lexer, is its own content, and denotes the same string
-in the emitted TypeScript and the emitted WebAssembly. -/
-theorem strconst_agree_partial (raw : Text) (hp : PlainText raw) (hq : ∀ c ∈ raw, c ≠ 34 ∧ c ≠ 10) :
-    lexAccepts raw = true ∧ content raw = raw ∧
-      tsCook (content raw) = some (wasmDecode (content raw)) := by
-  have hcontent : content raw = raw := by
-    unfold content
-    induction raw with
-    | nil => rfl
-    | cons c rest ih =>
-      have hc := (hp.1 c List.mem_cons_self).2.1
-      have hr : PlainText rest := by
-        refine ⟨fun d hd => hp.1 d (List.mem_cons_of_mem _ hd), ?_⟩
-        have hn := hp.2
-        unfold noSubst at hn
-        split at hn <;> simp_all
-      rw [unescapeQuotes.eq_def]
-      split
-      · simp_all
-      · rename_i c' rest' _ heq
-        cases heq
-        rw [ih hr (fun d hd => hq d (List.mem_cons_of_mem _ hd))]
-      · simp_all
-  have hclose : ∀ (s : Text), (∀ c ∈ s, c ≠ 34 ∧ c ≠ 10 ∧ c ≠ 92) → closesAtEnd 0 s = true := by
-    intro s hs
-    induction s with
-    | nil => rfl
-    | cons c rest ih =>
-      have := hs c List.mem_cons_self
-      simp only [closesAtEnd, this.1, this.2.1, this.2.2, if_false]
-      exact ih (fun d hd => hs d (List.mem_cons_of_mem _ hd))
-  have hvalid : ∀ (s : Text), (∀ c ∈ s, c ≠ 92) → validEscapes false s = true := by
-    intro s hs
-    induction s with
-    | nil => rfl
-    | cons c rest ih =>
-      have := hs c List.mem_cons_self
-      simp only [validEscapes, this, if_false]
-      exact ih (fun d hd => hs d (List.mem_cons_of_mem _ hd))
-  refine ⟨?_, hcontent, ?_⟩
-  · unfold lexAccepts
-    rw [hclose raw (fun c hc => ⟨(hq c hc).1, (hq c hc).2, (hp.1 c hc).2.1⟩),
-      hvalid raw (fun c hc => (hp.1 c hc).2.1)]
-    rfl
-  · rw [hcontent]; exact strconst_agree_content raw hp
+/-- **String constants**: for every content without backslash and carriage return — back quotes,
+`${`, quotes and all of Unicode included — the emitted TypeScript and the emitted WebAssembly (with
+its loader) hold the same string. -/
+theorem strconst_agree_content (s : Text) (h : CleanText s) : tsDecode s = some (wasmDecode s) := by
+  rw [tsDecode_clean s (fun c hc => (h c hc).2)]
+  unfold wasmDecode
+  rw [utf8_roundtrip s (fun c hc => (h c hc).1)]
 
-example : PlainText [80, 114, 105, 99, 101, 58, 32, 36, 53] := by   -- "Price: $5"
-  refine ⟨by decide, by decide⟩
+example : CleanText [97, 96, 36, 123, 49, 125, 233, 128184] := by
+  intro c hc; simp at hc; rcases hc with rfl | rfl | rfl | rfl | rfl | rfl | rfl | rfl <;> decide
+
+/-- a literal as written whose only escape is `\"` and that has no line feed / carriage return -/
+def QuoteEscapesOnly : Text → Prop
+  | 92 :: 34 :: r => QuoteEscapesOnly r
+  | c :: r => Scalar c ∧ c ≠ 92 ∧ c ≠ 34 ∧ c ≠ 10 ∧ c ≠ 13 ∧ QuoteEscapesOnly r
+  | [] => True
+
+theorem closesAtEnd_one_quote (r : Text) : closesAtEnd 1 (34 :: r) = closesAtEnd 0 r := by
+  simp [closesAtEnd]
+
+/-- **Partial form of `strconst_agree`** on the literal as written: every literal whose only
+escape sequence is `\"` (no other backslash, no raw CR) is accepted by the lexer and denotes the
+same string in the emitted TypeScript and the emitted WebAssembly. -/
+theorem strconst_agree_partial (raw : Text) (h : QuoteEscapesOnly raw) :
+    lexAccepts raw = true ∧ tsDecode (content raw) = some (wasmDecode (content raw)) := by
+  have key : closesAtEnd 0 raw = true ∧ validEscapes false raw = true ∧ CleanText (content raw) := by
+    induction raw using QuoteEscapesOnly.induct with
+    | case1 r ih =>
+      rw [QuoteEscapesOnly] at h
+      obtain ⟨a, b, c⟩ := ih h
+      refine ⟨by simp [closesAtEnd, a], by simp [validEscapes, b], ?_⟩
+      simp only [content, unescapeQuotes]
+      intro d hd
+      rcases List.mem_cons.mp hd with rfl | hd
+      · decide
+      · exact c d hd
+    | case2 c r hne ih =>
+      rw [QuoteEscapesOnly] at h
+      · obtain ⟨hs, h92, h34, h10, h13, hr⟩ := h
+        obtain ⟨a, b, cc⟩ := ih hr
+        refine ⟨by simp [closesAtEnd, h10, h34, h92, a], by simp [validEscapes, h92, b], ?_⟩
+        have hu : unescapeQuotes (c :: r) = c :: unescapeQuotes r := by
+          rw [unescapeQuotes]
+          intro r' e1 e2; exact h92 e1
+        simp only [content, hu]
+        intro d hd
+        rcases List.mem_cons.mp hd with rfl | hd
+        · exact ⟨hs, h92, h13⟩
+        · exact cc d hd
+      · exact hne
+    | case3 => exact ⟨rfl, rfl, by intro d hd; simp [content, unescapeQuotes] at hd⟩
+  exact ⟨by unfold lexAccepts; rw [key.1, key.2.1]; rfl, strconst_agree_content _ key.2.2⟩
+
+example : QuoteEscapesOnly [115, 97, 121, 32, 92, 34, 104, 105, 92, 34, 96, 36, 123, 233] := by
+  simp [QuoteEscapesOnly]; decide
 
 end SamVerif.Backends
